@@ -328,7 +328,23 @@ def write_replay(pid, failures, extra=None):
     return path
 
 
+def _prune(d, keep, pred=lambda f: True):
+    """disk hygiene: keep only the newest `keep` entries of a scratch directory (never fails a check)"""
+    try:
+        fs = sorted((os.path.join(d, f) for f in os.listdir(d) if pred(f)), key=os.path.getmtime)
+        for f in fs[:-keep] if keep else fs:
+            if os.path.isdir(f):
+                shutil.rmtree(f, ignore_errors=True)
+            else:
+                os.remove(f)
+    except OSError:
+        pass
+
+
 def main(argv):
+    _prune(os.path.join(BUILD, "cache"), 80, lambda f: f.endswith(".json"))
+    _prune(REPLAYS, 400)
+    _prune(BUILD, 0, lambda f: (f.startswith("run-") or f.startswith("replay-")) and time.time() - os.path.getmtime(os.path.join(BUILD, f)) > 6 * 3600)
     ap = argparse.ArgumentParser(prog="check")
     ap.add_argument("property")
     ap.add_argument("--tier", default=os.environ.get("VERIF_TIER", "quick"), choices=["quick", "thorough"])
